@@ -334,6 +334,9 @@ def run_corpus(case, acc):
             acc.count("corpus_charts_without_series_skipped")  # replace_data cannot clone a series there: C07's finding
             continue
         force = {"cats": "date", "npts": 5} if case["mode"] == "date1904" and kind == "category" and n % 2 == 0 else {}
+        if (n + case["seed"][-1]) % 2 == 0:
+            force["nser"] = 1  # shrink: every surplus series, in whichever plot it sits, must go (a stale one keeps references into the new workbook)
+            acc.hit("corpus-chart-shrunk-to-one-series")
         nd = c07.gen_data(rnd, kind, rnd.choice(["few", "random", "unequal", "multi3"]), min_series=1, mix=CLEAN, dates=c07.DATES, force=dict(force, nf="0.0", cat_nf=False))
         j = c07.Judge(acc, dict(case, chart=n), "%s %s (%s), replace with %s" % (case["deck"], chart.part.partname, case["mode"], json.dumps(c07.signature(nd))))
         branch = "replace-blob" if has_ext(chart) else "new-part"
@@ -421,7 +424,7 @@ def plan(tier, seed):
     nu = 24 if quick else 64
     units = [{"kind": "gen", "cases": cases[u::nu]} for u in range(nu)]
     decks = c07.chart_decks()
-    cc = [{"deck": d, "seed": [seed, d, r], "mode": ["same", "date1904", "no-external"][(r + di) % 3]} for r in range(1 if quick else 10) for di, d in enumerate(decks)]
+    cc = [{"deck": d, "seed": [seed, d, r], "mode": ["same", "date1904", "no-external"][(r + di) % 3]} for r in range(2 if quick else 10) for di, d in enumerate(decks)]
     units += [{"kind": "corpus", "cases": cc[u::8]} for u in range(8) if cc[u::8]]
     units += [{"kind": "colrefs", "lo": lo, "hi": min(16385, lo + 4096)} for lo in range(1, 16385, 4096)]
     return units
